@@ -90,5 +90,5 @@ var c01 = &vh.Prop[c01Case]{
 func init() { registrars = append(registrars, c01.Register) }
 
 func TestC01(t *testing.T) {
-	c01.Check(t, vh.N(20000, 50000))
+	c01.Check(t, vh.N(20000, 30000))
 }
